@@ -269,7 +269,10 @@ def validate(number, separator=''):
     provided number and for encoding the returned number.
     """
     try:
-        return encode(info(number, separator), separator)
+        number = encode(info(number, separator), separator)
+        if not number:
+            raise InvalidFormat()
+        return number
     except ValidationError:
         raise
     except Exception:  # noqa: B902
@@ -283,6 +286,6 @@ def validate(number, separator=''):
 def is_valid(number, separator=''):
     """Check if the number provided is a valid GS1-128."""
     try:
-        return bool(validate(number))
+        return bool(validate(number, separator))
     except ValidationError:
         return False
